@@ -29,7 +29,7 @@ SchemaA == [dynamic |-> TRUE] @@ SchemaF(<<
     <<"ct", CtS>>,
     <<"citems", With(ListF(ItemC), [default |-> ListV(<<D1(<<"w">>, IntV(1)), D1(<<"w">>, IntV(1))>>)])>> >>)
 
-MCKeyNames == {"raw", "name", "port", "tags", "opts", "feat", "enabled", "key", "core", "srv", "host", "ct", "citems", "u", "m", "w", "l2", "ditems", "a", "s", "l", "d", "sub", "x", "y", "deep", "z", "items", "p", "q", "zz"}
+MCKeyNames == {"ip", "net", "hostn", "url", "ratio", "flag", "blob", "port", "lvl", "lst", "dct", "nest", "addr", "cnt", "raw", "name", "port", "tags", "opts", "feat", "enabled", "key", "core", "srv", "host", "ct", "citems", "u", "m", "w", "l2", "ditems", "a", "s", "l", "d", "sub", "x", "y", "deep", "z", "items", "p", "q", "zz"}
 MCKeyChars == [k \in MCKeyNames |->
     CASE k = "a" -> <<"a">> [] k = "s" -> <<"s">> [] k = "l" -> <<"l">> [] k = "d" -> <<"d">>
       [] k = "sub" -> <<"s","u","b">> [] k = "x" -> <<"x">> [] k = "y" -> <<"y">>
@@ -37,6 +37,7 @@ MCKeyChars == [k \in MCKeyNames |->
       [] k = "name" -> <<"n", "a", "m", "e">> [] k = "port" -> <<"p", "o", "r", "t">> [] k = "tags" -> <<"t", "a", "g", "s">> [] k = "opts" -> <<"o", "p", "t", "s">> [] k = "feat" -> <<"f", "e", "a", "t">>
       [] k = "enabled" -> <<"e", "n", "a", "b", "l", "e", "d">> [] k = "key" -> <<"k", "e", "y">> [] k = "core" -> <<"c", "o", "r", "e">> [] k = "srv" -> <<"s", "r", "v">> [] k = "host" -> <<"h", "o", "s", "t">>
       [] k = "raw" -> <<"r","a","w">>
+      [] k = "ip" -> <<"i", "p">> [] k = "net" -> <<"n", "e", "t">> [] k = "hostn" -> <<"h", "o", "s", "t", "n">> [] k = "url" -> <<"u", "r", "l">> [] k = "ratio" -> <<"r", "a", "t", "i", "o">> [] k = "flag" -> <<"f", "l", "a", "g">> [] k = "blob" -> <<"b", "l", "o", "b">> [] k = "port" -> <<"p", "o", "r", "t">> [] k = "lvl" -> <<"l", "v", "l">> [] k = "lst" -> <<"l", "s", "t">> [] k = "dct" -> <<"d", "c", "t">> [] k = "nest" -> <<"n", "e", "s", "t">> [] k = "addr" -> <<"a", "d", "d", "r">> [] k = "cnt" -> <<"c", "n", "t">>
       [] k = "ct" -> <<"c","t">> [] k = "citems" -> <<"c","i","t","e","m","s">> [] k = "u" -> <<"u">>
       [] k = "m" -> <<"m">> [] k = "w" -> <<"w">>
       [] k = "l2" -> <<"l","2">> [] k = "ditems" -> <<"d","i","t","e","m","s">>
@@ -163,4 +164,41 @@ MCListOpsV ==
          [m |-> "append", v |-> D1(<<"p", "o", "r", "t">>, IntV(3))], [m |-> "item_set", i |-> 0, k |-> "host", v |-> NoneV],
          [m |-> "item_set", i |-> 0, k |-> "host", v |-> s(<<"x">>)], [m |-> "pop"]}]
 MCDictOpsV == [pk \in {<< <<>>, "opts">>} |-> {[m |-> "clear"], [m |-> "setitem", k |-> s(<<"k", "k">>), v |-> IntV(3)]}]
+
+(* ---- instance B: the textual and numeric field classes inside a configuration (C01, C06, C12) ---- *)
+NestB == SchemaF(<< <<"addr", With(IPv4AddrF, [default |-> s(<<"1", "0", ".", "0", ".", "0", ".", "1">>)])>>, <<"cnt", With(IntF, [hasmin |-> TRUE, min |-> 1, default |-> IntV(1)])>> >>)
+SchemaB == SchemaF(<<
+    <<"ip", With(IPv4AddrF, [stripm |-> "ws"])>>,
+    <<"net", With(IPv4NetF, [minpfx |-> 8, maxpfx |-> 24, default |-> s(<<"1", "0", ".", "0", ".", "0", ".", "0", "/", "8">>)])>>,
+    <<"hostn", With(HostnameF, [allow_ipv4 |-> FALSE, default |-> s(<<"l", "o", "c", "a", "l", "h", "o", "s", "t">>)])>>,
+    <<"url", With(UrlF, [required |-> TRUE, default |-> s(<<"h", "t", "t", "p", ":", "/", "/", "a">>)])>>,
+    <<"ratio", With(FloatF, [hasmin |-> TRUE, min |-> 0, hasmax |-> TRUE, max |-> 2, default |-> FloatH(1)])>>,
+    <<"flag", With(BoolF, [default |-> BoolV(TRUE)])>>,
+    <<"blob", With(BytesF, [encoding |-> "hex"])>>,
+    <<"port", With(PortF, [default |-> IntV(8080)])>>,
+    <<"lvl", With(StringF, [tcase |-> "lower", stripm |-> "ws", choices |-> << <<"i", "n", "f", "o">>, <<"w", "a", "r", "n">> >>, default |-> s(<<"i", "n", "f", "o">>)])>>,
+    <<"lst", With(ListF(With(HostnameF, [allow_ipv4 |-> TRUE])), [default |-> ListV(<<>>)])>>,
+    <<"dct", With(DictF(With(StringF, [tcase |-> "lower"]), With(FloatF, [hasmin |-> TRUE, min |-> 0])), [default |-> DictV(<<>>)])>>,
+    <<"nest", NestB>> >>)
+MCSetCandsB ==
+    [pk \in {<< <<>>, "ip">>, << <<>>, "net">>, << <<>>, "hostn">>, << <<>>, "url">>, << <<>>, "ratio">>, << <<>>, "flag">>, << <<>>, "blob">>,
+             << <<>>, "port">>, << <<>>, "lvl">>, << <<>>, "lst">>, << <<>>, "dct">>, << <<>>, "nest">>, << <<"nest">>, "addr">>} |->
+        CASE pk[2] = "ip"    -> {s(<<"1", "9", "2", ".", "1", "6", "8", ".", "1", ".", "1">>), s(<<" ", "1", "0", ".", "1", ".", "2", ".", "3", " ">>), s(<<"2", "5", "6", ".", "1", ".", "1", ".", "1">>), s(<<"1", ".", "2", ".", "3">>), IntV(1)}
+          [] pk[2] = "net"   -> {s(<<"1", "9", "2", ".", "1", "6", "8", ".", "0", ".", "0", "/", "1", "6">>), s(<<"1", "0", ".", "0", ".", "0", ".", "0", "/", "2", "5">>), s(<<"1", "0", ".", "0", ".", "0", ".", "1", "/", "2", "4">>), s(<<"1", "0", ".", "0", ".", "0", ".", "0", "/", "7">>), s(<<"1", "7", "2", ".", "1", "6", ".", "0", ".", "0", "/", "0", "2", "4">>)}
+          [] pk[2] = "hostn" -> {s(<<"w", "e", "b", "-", "1", ".", "e", "x", "a", "m", "p", "l", "e">>), s(<<"1", "0", ".", "0", ".", "0", ".", "1">>), s(<<"b", "a", "d", " ", "h", "o", "s", "t", "!">>), s(<<"a">>)}
+          [] pk[2] = "url"   -> {s(<<"h", "t", "t", "p", "s", ":", "/", "/", "x", ".", "y", "/", "z">>), s(<<"n", "o", "-", "s", "c", "h", "e", "m", "e">>), NoneV}
+          [] pk[2] = "ratio" -> {FloatH(2), FloatH(3), IntV(1), s(<<"0", ".", "5">>), FSpec("nan"), FSpec("inf")}
+          [] pk[2] = "flag"  -> {s(<<"o", "f", "f">>), s(<<"p", "e", "r", "h", "a", "p", "s">>), IntV(0)}
+          [] pk[2] = "blob"  -> {BytesV(<<0, 255>>), s(<<"t", "e", "x", "t">>), IntV(5)}
+          [] pk[2] = "port"  -> {IntV(1), IntV(0), IntV(65536), s(<<"4", "4", "3">>)}
+          [] pk[2] = "lvl"   -> {s(<<" ", "W", "A", "R", "N", " ">>), s(<<"d", "e", "b", "u", "g">>)}
+          [] pk[2] = "lst"   -> {ListV(<<s(<<"w", "e", "b", "-", "1", ".", "e", "x", "a", "m", "p", "l", "e">>), s(<<"1", "9", "2", ".", "1", "6", "8", ".", "1", ".", "1">>)>>), ListV(<<s(<<"b", "a", "d", " ", "h", "o", "s", "t", "!">>)>>)}
+          [] pk[2] = "dct"   -> {D1(<<"K">>, IntV(1)), D1(<<"k">>, FloatH(-1))}
+          [] pk[2] = "nest"  -> {D1(<<"a", "d", "d", "r">>, s(<<"1", "9", "2", ".", "1", "6", "8", ".", "1", ".", "1">>)), D1(<<"a", "d", "d", "r">>, s(<<"2", "5", "6", ".", "1", ".", "1", ".", "1">>))}
+          [] pk[2] = "addr"  -> {s(<<"1", "9", "2", ".", "1", "6", "8", ".", "1", ".", "1">>), s(<<"1", ".", "2", ".", "3">>)}]
+MCTreesB == {DictV(<<>>), D1(<<"i", "p">>, s(<<"1", "9", "2", ".", "1", "6", "8", ".", "1", ".", "1">>)), D2(<<"n", "e", "t">>, s(<<"1", "9", "2", ".", "1", "6", "8", ".", "0", ".", "0", "/", "1", "6">>), <<"i", "p">>, s(<<"2", "5", "6", ".", "1", ".", "1", ".", "1">>)),
+             D1(<<"b", "l", "o", "b">>, s(<<"0", "0", "f", "f">>)), D1(<<"b", "l", "o", "b">>, s(<<"z", "z">>)), D1(<<"u", "r", "l">>, NoneV), D1(<<"d", "c", "t">>, D1(<<"A">>, IntV(2)))}
+MCKwargsB == {<<>>, << <<"port", IntV(22)>> >>, << <<"port", IntV(0)>> >>, << <<"url", s(<<"n", "o", "-", "s", "c", "h", "e", "m", "e">>)>> >>}
+MCListOpsB == [pk \in {<< <<>>, "lst">>} |-> {[m |-> "append", v |-> s(<<"w", "e", "b", "-", "1", ".", "e", "x", "a", "m", "p", "l", "e">>)], [m |-> "append", v |-> s(<<"b", "a", "d", " ", "h", "o", "s", "t", "!">>)], [m |-> "insert", i |-> 0, v |-> s(<<"1", "9", "2", ".", "1", "6", "8", ".", "1", ".", "1">>)], [m |-> "pop"]}]
+MCDictOpsB == [pk \in {<< <<>>, "dct">>} |-> {[m |-> "setitem", k |-> s(<<" ", "W", "A", "R", "N", " ">>), v |-> s(<<"0", ".", "5">>)], [m |-> "setitem", k |-> s(<<" ", "W", "A", "R", "N", " ">>), v |-> FloatH(-3)], [m |-> "clear"]}]
 ====
